@@ -84,7 +84,12 @@ class StartupRun:
                     await run.phase(_i, "start", _acts)
 
                 ns["start"] = start
-            self.classes[i] = type(f"C{i}", (Component,), ns)
+            if i % 2:
+                # lifecycle methods inherited from an intermediate base class (a reusable base / mixin)
+                base = type(f"Base{i}", (Component,), {k: v for k, v in ns.items() if k in ("prepare", "start")})
+                self.classes[i] = type(f"C{i}", (base,), {"__init__": ns["__init__"]})
+            else:
+                self.classes[i] = type(f"C{i}", (Component,), ns)
 
     async def phase(self, i: int, which: str, acts: list[dict[str, Any]]) -> None:
         from asphalt.core import add_resource, add_resource_factory, add_teardown_callback, get_resource
